@@ -53,7 +53,7 @@ PURE_FUNCS = {
     "utils.isDbWritable", "utils.findWritableDb", "utils.isSubpath", "utils.isRealFilename",
     "utils.extraDirPath", "utils.guessProduct", "utils.deprecated", "utils.is_string", "utils.Flavor",
     "Product", "Database", "Table", "EupsException", "ProductNotFound", "RuntimeError", "TagNotRecognized",
-    "self.findProduct", "self.findProducts", "self.getProduct", "self.getUpsDB", "self.isUserTag",
+    "self.findProduct", "self.findProducts", "self.findTaggedProduct", "self.getProduct", "self.getUpsDB", "self.isUserTag",
     "self.isTag", "self.isSetup", "self.uses", "self._databaseFor", "self._userStackCache",
     "self.tags.getTag", "self.tags.owners.get", "hooks.config.Eups.defaultProduct.get",
 }
